@@ -412,6 +412,9 @@ impl PropertySet {
     pub fn set(&mut self, property_name: u32, property_value: PropertyValue) {
         if property_name == PROPERTY_CODEPAGE {
             if let PropertyValue::I2(codepage_id) = property_value {
+                // The code page ID is stored as the bits of an unsigned 16-bit
+                // number (e.g. 65001 for UTF-8).
+                let codepage_id = codepage_id as u16;
                 if let Some(codepage) = CodePage::from_id(codepage_id as i32) {
                     self.codepage = codepage;
                 }
